@@ -334,3 +334,32 @@ STUB_CONTRACTS.update({"pairwise_distances": "euclidean / manhattan distance mat
 
 # repo-internal numerical kernels replaced by their contract (module, attribute) -> stub
 MODULE_STUBS = {}
+
+
+# --------------------------------------------------------------------------
+# joblib by contract: sequential, order preserving
+CPU_COUNT = [2]
+
+
+class Parallel:
+    def __init__(self, n_jobs=None, **kw):
+        if n_jobs == 0:
+            raise ValueError("n_jobs == 0 in Parallel has no meaning")
+        self.n_jobs = n_jobs
+
+    def __call__(self, iterable):
+        return [f(*a, **k) for f, a, k in iterable]
+
+
+def delayed(f):
+    def g(*a, **k):
+        return (f, a, k)
+    return g
+
+
+def cpu_count(*a, **k):
+    return CPU_COUNT[0]
+
+
+GLOBAL_STUBS.update({"Parallel": Parallel, "delayed": delayed, "cpu_count": cpu_count})
+STUB_CONTRACTS.update({"joblib": "Parallel(...)(delayed(f)(x) for x in xs) == [f(x) for x in xs]; cpu_count() = a small constant"})
